@@ -101,7 +101,7 @@ Lemma code2_nonneg q : 0 <= zlen (code2 q). Proof. apply zlen_nonneg. Qed.
 Lemma reify_s_spos en props pc s : spos pc (reify_s en props pc s) /\ shead (pc + zlen (compile_s s)) (reify_s en props pc s).
 Proof.
   pose proof (reify_s_pos en props pc s) as H.
-  destruct s as [t e|f args|f args|fam pid o v|tk ti tv|an ao av|mp mi mm mv|]; cbn [reify_s] in *; try (destruct (reify_args en pc args)); cbn [pos_of spos shead] in *; lia.
+  destruct s as [t e|f args|f args|fam pid o v|tk ti tv|an ao av|mp mi mm mv| |pmd pf pv|lmd li lv]; cbn [reify_s] in *; try (destruct (reify_args en pc args)); cbn [pos_of spos shead] in *; lia.
 Qed.
 
 Lemma for_lens down v lo hi :
